@@ -14,3 +14,44 @@ def add(pid, technique, text, note):
 add("C13", "who-may-spawn call-site table + argv/env shape of GitCommand + dominance (must-pass-through IsFull) over SSA",
     "Decides the structural part of C13: all git processes are built by GitCommand (one named exception), GitCommand forces --no-replace-objects, GIT_DIR and GIT_GRAFT_FILE=os.DevNull with nothing overriding them, every constructed Repository passed the shallow test on all paths, and the git directory is never re-pointed. A static shape argument is the right level because these are who-may-call / dominance facts; equality of reports across addressing modes is a relation between runs and is not decided.",
     "Trusted: git honours the flags and environment as documented; os/exec passes Args/Env through; go/ssa and go/types model the source faithfully. Not decided: identity of reports across ways of addressing the repository.")
+
+TB = "Trusted: go/packages, go/types and go/ssa model the source faithfully; the field-based heap model (one node per struct field); the library/git contracts named in the evidence assumptions."
+add("C01", "update-effect graph vs. frozen oracle + CFG path rules (guards, exactly-once-per-iteration) + constant-folded argv of the rev-list site",
+    "Decides structural necessary conditions of the census: which quantities are added into the eight census counters with which operator on every path (exactly the edges the statement demands), that each header is dispatched exactly once and each listed object requested/read/registered exactly once, that only walked roots reach rev-list, that rev-list's argv cannot add or hide objects, and that the scanned roots are exactly references + ROOT arguments. Shape-of-code facts on all paths, including branches no test executes; numeric equality with the reachable set is not decided.",
+    TB + " Not decided: that git enumerates exactly the reachable set; the numeric equality itself.")
+add("C02", "finite-domain abstract interpretation of AdjustMax* over the 3 orderings + update-effect graph + unconditional-execution path rule",
+    "Decides that the four single-object maxima are fed by MAX of exactly the quantity the statement names, on every path from registration (position-independent), that the max primitives implement max in all orderings, and that parents are counted per `parent` header. Operator semantics are decided exhaustively over a finite abstract domain; concrete repositories are not run.",
+    TB)
+add("C03", "argv flag rule + loop-shape recognition (descending request/read loops, index cross-check) + update-effect graph + guard rules",
+    "Decides the ordering flag, the reverse processing of the commit list with its order cross-check, panics on missing parent/tree sizes (no silent zero), depth = 1 + MAX over parents with one MAX per parent, tag depth additions only for tag referents in both delivery orders. The longest-chain equality on concrete DAGs and git's ordering guarantee are not decided.",
+    TB + " Trusted: git's documented ordering for --date-order/--topo-order/--author-date-order.")
+add("C04", "mode-constant facts on dominating branch edges + per-iteration event counting with listener credit + update-effect graph vs. oracle",
+    "Decides the entry-kind classification constants, that every path through one tree-entry iteration bumps exactly one kind counter and each path maximum once in the arm of its own kind, the combine edges of the recursive expansion (ADD per occurrence / MAX for depth and length / tree itself counted), and that the seven checkout maxima are unconditional MAXes of their own quantity. Numeric equality on concrete tree DAGs is not decided.",
+    TB)
+add("C05", "finite-domain abstract interpretation (wrapped/not-wrapped case split) + who-may-apply-raw-arithmetic scan with marks from the effect graph + sibling cross-check + call-graph single-caller rules",
+    "Decides the saturating primitives for all operands through the one theorem of w-bit unsigned addition, that no raw arithmetic/conversion touches a counter outside package counts, that sibling size parsers agree, the overflow rendering rules, and that each tree is expanded from exactly one place. Two widenings of a 32-bit-clamped blob size are a recorded known finding. Run time and saturation on concrete repositories are not decided.",
+    TB)
+add("C06", "finite-domain abstract interpretation over opaque match atoms (truth tables) + fold/guard rules on SSA + registration table from composite literals + concatenation-shape rule for the anchored regexp",
+    "Decides the four Combine identities and the helper filters' truth tables exhaustively over atoms, the fold shape at all six extension sites, the all/none default and its single caller, the option registration table, the prefix boundary table with its in-bounds index, the grouping of a user regexp inside its anchors, and the /REGEXP/ @GROUP PREFIX dispatch. The last-matching-rule semantics follows from these by induction on the option list (on paper). Regexp matching and pflag's ordering are trusted.",
+    TB)
+add("C07", "zone-domain bounds obligations for the renderer + update-effect graph + per-iteration event counting + guard rules + argv rule",
+    "Decides that no index/slice in the table renderer can go out of bounds for any refgroup depth or name, that every reference is registered exactly once regardless of Walk(), one root per listed reference with its own Categorize result, one tally bump per group symbol, the `ignored` iff-not-walked guard and the own-filter early return, the refgroup row symbols/indentation, and an unrestricted for-each-ref. The recursive tally semantics over arbitrary forests is not decided.",
+    TB)
+add("C08", "control-dependence (guard) rule pairing each witness update with the AdjustMax* of its own metric + item/witness table cross-check + finite-domain interpretation of the name-style switch",
+    "Decides that a witness is recorded exactly when its own metric reached a new maximum, for the object being compared and with the right kind, that each report item cites the witness paired with its value, and that --names=none produces no citation. That a printed description resolves through git rev-parse is not decided (run-time strings and git's revision grammar).",
+    TB)
+add("C09", "sibling cross-check of update-edge multisets (immediate branch vs. deferred listener) + pending-counter path rules",
+    "Decides that both delivery orders of a subtree / referent tag execute the same size-affecting updates the same number of times, that the pending counter is incremented once per registered listener and decremented once per notification followed by the finalisation step, that initialisation ends in that step, and that finalisation publishes then notifies under pending==0. Invariance between runs (root order, timestamps, storage layout) is not decided.",
+    TB)
+add("C10", "error-flow discipline over every error-producing operation (non-nil edge regions) + must-observe-end-of-stream dominance rule + who-may-write-stdout + channel close/capacity rules + bounds obligations of the driver",
+    "Decides that no error produced anywhere in the module is dropped or swallowed (enumerated single-construct exceptions), that short reads and wrong object types leave with an error, that success is returned only after each pipeline's Wait() error was observed, that the report is written only after a successful scan and nothing else can write stdout, and the close/capacity discipline that prevents the consumer or a feeder from blocking forever. General absence of hangs and equality with the fault-free report are not decided.",
+    TB + " Trusted: go-pipe and os/exec report failing children through Wait()/Output().")
+add("C13", CHECKS["C13"]["technique"], CHECKS["C13"]["text"], CHECKS["C13"]["note"])
+add("C15", "delimiter-discipline rule (record terminator before field separator) + zone-domain bounds/progress obligations + truth table of the key-prefix matcher + key/polarity table of the augment switch",
+    "Decides that the gitconfig listing is cut at NUL before LF is searched, that the reader cannot index out of bounds or loop forever, that no scope restriction is passed to git config, the '.'-boundary truth table of the key matcher, and that a group is folded from exactly the five documented keys with the right polarity and pattern kind in listing order. Agreement with git's own parser on arbitrary configurations is not decided.",
+    TB)
+add("C16", "zone (difference-bound) domain bounds obligations on every index/slice of package git + cursor-progress rule + grammar constant agreement + writer/reader format cross-check",
+    "Decides absence of out-of-range panics and of non-termination in the object and listing parsers for every input (an undischarged obligation is reported as the crash it allows), the tree-entry grammar constants, single duplicate-rejecting header arms, the header block ending at the first blank line, and agreement between git's output formats and the readers' field indices. Losslessness (re-serialisation equality) is not decided.",
+    TB + " Int wrap-around is not modelled by the zone domain.")
+# keep engine list free of duplicates
+ENGINES[0]["serves_properties"] = sorted(set(ENGINES[0]["serves_properties"]))
